@@ -449,6 +449,11 @@ func RunReplay(t *testing.T, fn func(rf *ReplayFile) error) {
 		t.Fatalf("HARNESS: %v", err)
 	}
 	if err := fn(rf); err != nil {
+		if IsHarnessErr(err) {
+			// harness trouble is not a verdict: tell the driver
+			os.WriteFile(filepath.Join(outDir, "replay.inconclusive"), []byte(err.Error()), 0o644)
+			t.Skipf("%s/%s: %v", Property, rf.Sub, err)
+		}
 		t.Fatalf("%s/%s: %v", Property, rf.Sub, err)
 	}
 }
